@@ -426,6 +426,11 @@ def r09_6_shared(repo: Repo, rep: Report):
 
     rep.rule("R02.1", "insufficient-funds branch kept unless proved infeasible (shared with C02)")
     check_verdict_sites(repo, rep, "R02.1", modules=("sevm",), only_functions={"sevm.SEVM.handle_insufficient_fund_case", "sevm.SEVM.transfer_value"})
+    # round 7: ... and it is skipped only for a zero value (a transfer to oneself / CALLCODE needs the balance too)
+    from hsa.rules.c02 import funds_early_exit
+
+    rep.rule("R02.7", "the insufficient-funds branch is skipped only for a zero value (shared with C02)")
+    funds_early_exit(repo, rep, "R02.7")
 
 
 RULES = [r09_1_snapshot_restore, r09_2_message_construction, r09_3_static_context, r09_4_value_transfer, r09_5_returndata, r09_6_shared, r09_7_exception_classes]
